@@ -149,7 +149,12 @@ where
     pub fn new(target: D, proposal: Q, initial_states: Vec<Vec<S>>) -> Self {
         let chains = initial_states
             .into_iter()
-            .map(|s| MHMarkovChain::new(target.clone(), proposal.clone(), s))
+            .map(|s| {
+                // Every chain gets its own proposal noise stream; clones of one proposal would
+                // otherwise all carry the same generator state and propose identical moves.
+                let chain_proposal = proposal.clone().set_seed(rand::rng().random::<u64>());
+                MHMarkovChain::new(target.clone(), chain_proposal, s)
+            })
             .collect();
         Self {
             target,
@@ -187,7 +192,13 @@ where
     pub fn seed(mut self, seed: u64) -> Self {
         for (i, chain) in self.chains.iter_mut().enumerate() {
             let chain_seed = seed.wrapping_add(1).wrapping_add(i as u64);
-            chain.rng = SmallRng::seed_from_u64(chain_seed)
+            chain.rng = SmallRng::seed_from_u64(chain_seed);
+            // Re-seed the chain's proposal as well, with a seed no chain uses for its
+            // acceptance draws, so that runs are reproducible and chains stay distinct.
+            chain.proposal = chain
+                .proposal
+                .clone()
+                .set_seed(chain_seed ^ 0x8000_0000_0000_0000);
         }
         self
     }
